@@ -48,8 +48,9 @@ def r5(ctx):
     tables = c10.r3(ctx)
     c10.r1(ctx, tables); c10.r5(ctx); c10.r6(ctx)
     c12.r1(ctx); c12.r3(ctx); c12.r6(ctx)
-    from . import c09
+    from . import c05, c09
     c09.r5(ctx, AT4_API); c09.r5(ctx, AT5_API)
+    c05.r1_ability(ctx)
     new = ctx.obligations[before:]
     del ctx.obligations[before:]
     n_ok = 0
